@@ -18,6 +18,8 @@ pub trait Tr { type A; }
 pub trait Tr2 {}
 pub trait Tr3<X: ?Sized> {}
 pub trait TrL<'a>: 'a {}
+#[allow(unused_macros)] macro_rules! ObjM { () => { dyn ::core::fmt::Debug }; ($l:lifetime) => { dyn TrL<$l> }; }
+#[allow(unused_macros)] macro_rules! PtrM { () => { *const dyn ::core::fmt::Debug }; (mut) => { *mut dyn ::core::fmt::Debug }; }
 impl Tr for u8 { type A = u8; }
 impl Tr2 for u8 {}
 /// carrier: uses every declared parameter (through X and N) and implements every trait any derive needs, for all X, N
@@ -582,6 +584,13 @@ def part_accepted_compiles(chk, thorough):
         ("From", "struct S(H<(), 1>) where Self: Tr2;", "impl Tr2 for S {}"),
         # a bare trait-object field whose trait has a lifetime bound of its own (the object lifetime defaults to it, not to 'static)
         ("AsRef", "struct S<'a>(u8, #[as_ref] dyn TrL<'a>);", ""), ("AsMut", "struct S<'a>(dyn TrL<'a>);", ""), ("AsRef", "struct S<'a> { #[as_ref] a: Box<u8>, #[as_ref] b: dyn TrL<'a> + Send }", ""),
+        # ... and a trait object written by a macro in type position (second reading of 302ad61: no `dyn` token for the derive to see)
+        ("AsRef", "struct S(ObjM!());", ""),
+        ("AsMut", "struct S<'a>(u8, #[as_mut] ObjM!('a));", ""),
+        ("Unwrap", "#[unwrap(ref_mut)] enum S { A(PtrM!()), B }", ""),
+        ("TryUnwrap", "#[try_unwrap(ref)] enum S { A(u8, PtrM!()), B }", ""),
+        ("Into", "#[into(ref_mut)] struct S(PtrM!(mut));", ""),
+        ("TryInto", "#[try_into(ref, ref_mut)] enum S { A(PtrM!()), B(u8) }", ""),
         ("Sum", "struct S<T>(T);", "impl<T: ::core::ops::Add<Output = T>> ::core::ops::Add for S<T> { type Output = Self; fn add(self, o: Self) -> Self { S(self.0 + o.0) } }"),
     ]
     for d, it, companion, *kid in hand:
